@@ -128,6 +128,7 @@ def check(program: Program, run: Run) -> None:
         "lambda/nested function/generator/local class, and no pickle-protocol override may appear unreviewed. Nothing is executed.")
     run.rule("R1 every __getattr__ is fenced for __deepcopy__/__setstate__/__getstate__ before any other statement")
     run.rule("R2 shallow-copy protocol decouples containers later builders mutate (C01 R1/R2/R5 re-evaluated)")
+    run.rule("R4 instance state is never compared by identity with a module-level marker object that deepcopy/pickle would duplicate")
     run.rule("R3 picklability by construction: no lambda/generator/nested function/local class stored on instances; no __slots__; no unreviewed __reduce__/__getstate__/__setstate__/__deepcopy__ definitions")
     run.assumptions += ["CPython 3.9-3.13 copy/pickle protocol probe names", "user-supplied callables (placeholder_factory) are outside the claim"]
     hooks = program.definitions_of("__getattr__")
@@ -169,6 +170,38 @@ def check(program: Program, run: Run) -> None:
     shared_obs = [o for o in sub.obligations if o.rule.startswith(("C01/R1 in-place", "C01/R2", "C01/R5"))]
     for o in shared_obs:
         run.ob("C15/R2 " + o.rule[4:], o.subject, o.ok, o.detail, o.where)
+
+    # R4: instance state compared by identity with a module-level marker object (`_MISSING = object()` ... `self.x is
+    # _MISSING`): copy.copy keeps the marker, deepcopy and pickle rebuild it as a *new* object, so in the duplicate the
+    # test gives the other answer
+    nmark = 0
+    markers = {}
+    for m in program.modules.values():
+        for name, e in m.constants.items():
+            if isinstance(e, ast.Call) and isinstance(e.func, ast.Name) and not e.args and not e.keywords:
+                r = program.resolve_global(m, e.func.id)
+                if e.func.id == "object" or (r and r[0] == "class" and not r[1].has_extern_base("Enum")
+                                             and not any(k_ in r[1].methods for k_ in ("__deepcopy__", "__copy__", "__reduce__", "__reduce_ex__"))):
+                    markers[(m.name, name)] = m
+    for f in program.all_functions():
+        if f.cls is None or not f.params or f.is_static:
+            continue
+        sn = f.params[0]
+        for n in ast.walk(f.node):
+            if not (isinstance(n, ast.Compare) and len(n.ops) == 1 and isinstance(n.ops[0], (ast.Is, ast.IsNot))):
+                continue
+            a, b = n.left, n.comparators[0]
+            for x, y in ((a, b), (b, a)):
+                if isinstance(x, ast.Attribute) and isinstance(x.value, ast.Name) and x.value.id == sn and isinstance(y, ast.Name):
+                    r = program.resolve_global(f.module, y.id)
+                    if r and r[0] == "const" and (r[1].name, y.id) in markers:
+                        nmark += 1
+                        run.ob("C15/R4 instance state is not compared by identity with a module-level marker object", f"{f.qualname}:{ast.unparse(n)}", False, where=f.loc(n))
+                        run.finding(f"C15/marker-identity:{f.cls.qualname}.{x.attr}:{y.id}",
+                                    f"{f.qualname} tests `{ast.unparse(n)}`, and `{y.id}` is a module-level `{ast.unparse(r[2])}`: copy.deepcopy and a pickle round-trip rebuild the marker as a new object, "
+                                    f"so the duplicate answers the test differently from its original (None, an Enum member or a class would survive)", where=f.loc(n), rule="R4")
+    run.ob("C15/R4 instance state is not compared by identity with a module-level marker object", "package", True,
+           detail=f"{len(markers)} module-level marker objects, {nmark} identity tests on instance state", nontrivial=False)
 
     # R3
     for c in program.all_classes():
